@@ -428,7 +428,8 @@ def run_property(prop, tier="quick", seed=0, only=None, jobs=None, verbose=False
     results.sort(key=lambda r: r["name"])
 
     # --- counterexamples: replay natively before reporting
-    os.makedirs(os.path.join(VERIF, "replays"), exist_ok=True)
+    repdir = os.environ.get("VERIF_REPLAY_DIR") or os.path.join(VERIF, "replays")
+    os.makedirs(repdir, exist_ok=True)
     violations, harness_errors, inconclusive = [], [], []
     cex = [r for r in results if r["verdict"] == "COUNTEREXAMPLE"]
     for d, x, c in native_fail:  # failures of the native validation vectors count too
@@ -443,7 +444,7 @@ def run_property(prop, tier="quick", seed=0, only=None, jobs=None, verbose=False
             clause = next(it)
             if clause:
                 h = hashlib.sha1(json.dumps([r["desc"], r["cex"]], sort_keys=True).encode()).hexdigest()[:10]
-                path = os.path.join(VERIF, "replays", "%s-%s.json" % (prop, h))
+                path = os.path.join(repdir, "%s-%s.json" % (prop, h))
                 with open(path, "w") as fp:
                     json.dump({"property": prop, "desc": r["desc"], "inputs": r["cex"], "clause": clause, "symbolic_clause": r.get("clause")}, fp, indent=1)
                 violations.append((r["name"], clause, path))
@@ -515,8 +516,9 @@ def run_property(prop, tier="quick", seed=0, only=None, jobs=None, verbose=False
             "source_digest": repo_digest(),
         },
     }
-    os.makedirs(os.path.join(VERIF, "evidence"), exist_ok=True)
-    with open(os.path.join(VERIF, "evidence", "%s.json" % prop), "w") as fp:
+    evdir = os.environ.get("VERIF_EVIDENCE_DIR") or os.path.join(VERIF, "evidence")
+    os.makedirs(evdir, exist_ok=True)
+    with open(os.path.join(evdir, "%s.json" % prop), "w") as fp:
         json.dump(ev, fp, indent=1)
 
     # --- report
